@@ -26,6 +26,43 @@ theorem tie_checkedTimeout (route confMs : Int) :
   unfold Extracted.C04.checkedTimeout GoZero.C04.checkedTimeout
   by_cases h : route > 0 <;> simp [h]
 
+/-! ### which duration reaches `TimeoutHandler` for a route: rest/server.go options, rest/engine.go wiring -/
+
+/-- `WithTimeout(t)` stores `t`; `WithSSE()` resets the timeout to 0 (model: `RouteOpt`, `groupTimeout`) -/
+theorem tie_routeOptions :
+    withTimeoutOpt = ["r.timeout = timeout"] ∧ withSSEOpt = ["r.sse = true", "r.timeout = 0"] := by decide
+
+/-- `AddRoutes`: the options are applied in order on a zero `featuredRoutes`, which is then handed to the engine
+(model: `groupTimeout` as a left fold from 0, `Eng.addRoutes`) -/
+theorem tie_serverAddRoutes :
+    serverAddRoutes = ["r := featuredRoutes{ routes: rs, }", "range opts {", "opt(&r)", "}", "s.ngin.addRoutes(r)"] := by decide
+
+/-- `addRoutes`: append the group; `ng.timeout` becomes the maximum (model: `Eng.addRoutes`) -/
+theorem tie_engAddRoutes :
+    engAddRoutes = ["if r.sse {", "r.routes = buildSSERoutes(r.routes)", "}", "ng.routes = append(ng.routes, r)",
+      "if r.timeout > ng.timeout {", "ng.timeout = r.timeout", "}"] := by decide
+
+/-- `newEngine`: `ng.timeout` starts as the global timeout in ms (model: `Eng.new`) -/
+theorem tie_engNew :
+    engNewTimeout = ["svr := &engine{ conf: c, timeout: time.Duration(c.Timeout) * time.Millisecond, }"] := by decide
+
+/-- the middleware is appended only under `Middlewares.Timeout`, with `checkedTimeout` of the *group's* timeout
+(model: `Eng.bound`, mode `on` / `off`) -/
+theorem tie_engTimeoutWiring :
+    engTimeoutWiring =
+      ["if ng.conf.Middlewares.Timeout { chn = chn.Append(handler.TimeoutHandler(ng.checkedTimeout(fr.timeout)))"] := by decide
+
+/-- `bindRoute`: a user chain replaces the native middlewares altogether (model: mode `chain`); every route of a group is
+bound with the group's `fr`; every group of `ng.routes` is bound -/
+theorem tie_engBind :
+    engBindRouteChain = ["chn := ng.chain",
+      "if chn == nil { chn = ng.buildChainWithNativeMiddlewares(fr, route, metrics)",
+      "chn = ng.appendAuthHandler(fr, chn, verifier)",
+      "range ng.middlewares { chn = chn.Append(convertMiddleware(middleware))",
+      "handle := chn.ThenFunc(route.Handler)"] ∧
+    engBindFeatured = ["range fr.routes { err := ng.bindRoute(fr, router, metrics, route, verifier)"] ∧
+    engBindRoutes = ["range ng.routes { err := ng.bindFeaturedRoutes(router, fr, metrics)"] := by decide
+
 /-! ### statement skeletons and context/result flow -/
 
 /-- `TimeoutHandler(duration)`: no wrapper at all when `duration <= 0` (model: `restWraps`) -/
@@ -44,7 +81,7 @@ theorem tie_timeoutHandlerCtorShape : timeoutHandlerCtorShape = expected_timeout
 handler goroutine (`hstep`: ServeHTTP(tw, r) then `close done`; recover → `send panicChan`); the select with its three
 branches: `mPanic` (re-panic), `mDone` (lock, copy headers, status if ≠ 200, body), `mTimeout`/`mAdv` (lock,
 ErrorCtx → WriteHeader 499/503 + reason, `store tw.timedOut`, deferred unlock) -/
-def expected_serveHTTPShape : List String := [
+def expected_serveHTTPShape (statusCond : String) : List String := [
   "if r.Header.Get(headerUpgrade) == valueWebsocket || r.Header.Get(headerAccept) == valueSSE {",
   "call h.handler.ServeHTTP",
   "return",
@@ -83,7 +120,7 @@ def expected_serveHTTPShape : List String := [
   "range tw.h {",
   "mapset dst",
   "}",
-  "if tw.code != http.StatusOK {",
+  statusCond,
   "call w.WriteHeader",
   "}",
   "call tw.wbuf.Bytes",
@@ -109,17 +146,29 @@ def expected_serveHTTPShape : List String := [
   "store tw.timedOut",
   "}"]
 
-theorem tie_serveHTTPShape : serveHTTPShape = expected_serveHTTPShape := by decide
+def statusCondPinned : String := "if tw.code != http.StatusOK {"
+def statusCondFixed : String := "if tw.code != http.StatusOK && !tw.flushed {"
+
+/-- the done branch writes the buffered status unless it is 200 — and (fixed code) unless a `Flush` has sent it already -/
+theorem tie_serveHTTPShape :
+    serveHTTPShape = expected_serveHTTPShape statusCondPinned ∨
+    serveHTTPShape = expected_serveHTTPShape statusCondFixed := by decide
 
 /-- the context handed to the work is the one returned by `context.WithTimeout(r.Context(), h.dt)`; the work writes
 to `tw`, not `w`; exempt requests get `w, r` untouched; the timeout branch writes 499 for Canceled else 503, then the reason,
-then sets `timedOut` -/
+then sets `timedOut`; `panicChan` is buffered (capacity 1: a handler that panics after the select has been left
+does not block, model: `panicChan : Option Nat`), `done` is closed (not sent on), the re-raised value is the received one -/
 def expected_serveHTTPFlow : List String := [
   "h.handler.ServeHTTP(w, r)",
   "ctx, cancelCtx := context.WithTimeout(r.Context(), h.dt)",
   "r = r.WithContext(ctx)",
+  "done := make(chan struct{})",
   "tw := &timeoutWriter{ w: w, h: make(http.Header), req: r, code: http.StatusOK, }",
+  "panicChan := make(chan any, 1)",
+  "panicChan <- p",
   "h.handler.ServeHTTP(tw, r)",
+  "close(done)",
+  "panic(p)",
   "dst[k] = vv",
   "w.WriteHeader(tw.code)",
   "w.Write(tw.wbuf.Bytes())",
@@ -177,21 +226,86 @@ def expected_twWriteHeaderLockedShape : List String := [
 
 theorem tie_twWriteHeaderLockedShape : twWriteHeaderLockedShape = expected_twWriteHeaderLockedShape := by decide
 
-/-- `Flush` as it exists: no `mu`, no `timedOut` test, copies headers, writes and resets the buffer (model: `flushNow`) -/
-def expected_twFlushShape : List String := [
+/-- `Flush` PINNED: no `mu`, no `timedOut` test, copies headers, writes and resets the buffer (model: `flushNowPinned`,
+`stepPinned`; findings flush-after-timeout / flush-drops-status) -/
+def expected_twFlushPinned : List String := [
+  "flusher, ok := tw.w.(http.Flusher)",
   "if !ok {",
   "return",
   "}",
-  "call tw.w.Header",
+  "header := tw.w.Header()",
   "range tw.h {",
-  "mapset header",
+  "header[k] = v",
   "}",
-  "call tw.wbuf.Bytes",
-  "call tw.w.Write",
-  "call tw.wbuf.Reset",
-  "call flusher.Flush"]
+  "tw.w.Write(tw.wbuf.Bytes())",
+  "tw.wbuf.Reset()",
+  "flusher.Flush()"]
 
-theorem tie_twFlushShape : twFlushShape = expected_twFlushShape := by decide
+/-- `Flush` FIXED (fixes/C04-flush-after-timeout.patch): under `mu` (deferred unlock), nothing once `timedOut`, the
+first flush sends the buffered status (model: `hstep` flush case, `flushNow`) -/
+def expected_twFlushFixed : List String := [
+  "flusher, ok := tw.w.(http.Flusher)",
+  "if !ok {",
+  "return",
+  "}",
+  "tw.mu.Lock()",
+  "defer tw.mu.Unlock()",
+  "if tw.timedOut {",
+  "return",
+  "}",
+  "header := tw.w.Header()",
+  "range tw.h {",
+  "header[k] = v",
+  "}",
+  "if !tw.flushed && tw.code != http.StatusOK {",
+  "tw.w.WriteHeader(tw.code)",
+  "}",
+  "tw.flushed = true",
+  "tw.w.Write(tw.wbuf.Bytes())",
+  "tw.wbuf.Reset()",
+  "flusher.Flush()"]
+
+/-- `Flush` and the done branch are both in the pinned form or both in the fixed form — never half.  (The
+correspondence run accepts, per line with a `Flush`, the pinned or the fixed model and counts which one explained it;
+the monitor reports the pinned behaviour as the recorded findings flush-after-timeout / flush-drops-status.) -/
+theorem tie_twFlush :
+    (twFlushDetail = expected_twFlushPinned ∧ serveHTTPShape = expected_serveHTTPShape statusCondPinned) ∨
+    (twFlushDetail = expected_twFlushFixed ∧ serveHTTPShape = expected_serveHTTPShape statusCondFixed) := by decide
+
+/-- `Hijack` PINNED: straight pass-through (model: `hijackPinned`; finding hijack-after-timeout) or FIXED
+(fixes/C04-hijack-after-timeout.patch): under `mu`, ErrHandlerTimeout once `timedOut` (model: `hijack`) -/
+theorem tie_twHijack :
+    twHijackDetail = ["if hijacked, ok := tw.w.(http.Hijacker); ok {", "return hijacked.Hijack()", "}",
+      "return nil, nil, errors.New(\"server doesn't support hijacking\")"] ∨
+    twHijackDetail = ["tw.mu.Lock()", "defer tw.mu.Unlock()", "if tw.timedOut {", "return nil, nil, http.ErrHandlerTimeout", "}",
+      "if hijacked, ok := tw.w.(http.Hijacker); ok {", "return hijacked.Hijack()", "}",
+      "return nil, nil, errors.New(\"server doesn't support hijacking\")"] := by decide
+
+/-- `Push` is a pass-through to the underlying writer (HTTP/2 push promises are not part of this response; not modelled) -/
+theorem tie_twPush :
+    twPushDetail = ["if pusher, ok := tw.w.(http.Pusher); ok {", "return pusher.Push(target, opts)", "}",
+      "return http.ErrNotSupported"] := by decide
+
+/-- the timeout branch's `httpx.ErrorCtx(…, fn)`: without a user-installed error handler (`handler == nil`) exactly the
+functions passed are called — our closure writing 499/503 + reason, no header (model: `mAdv` rows t1→t3) -/
+theorem tie_httpxDefault :
+    httpxErrorCtx = ["doHandleError(w, err, buildErrorHandler(ctx), writeJson, fns...)"] ∧
+    httpxDefaultError = ["if handler == nil { if len(fns) > 0 { range fns { fn(w, err)"] := by decide
+
+/-! ### zrpc: configuration → interceptors (model: `srvWiredDeadline`, `cliConfTimeout`, `cliWiredDeadline`) -/
+
+theorem tie_zrpcSrvWiring :
+    zrpcSrvWiring = ["if c.Timeout > 0 { svr.AddUnaryInterceptors(serverinterceptors.UnaryTimeoutInterceptor( time.Duration(c.Timeout)*time.Millisecond, c.MethodTimeouts...))"] := rfl
+
+theorem tie_zrpcCliWiring :
+    zrpcCliConf = ["if c.Timeout > 0 { opts = append(opts, WithTimeout(time.Duration(c.Timeout)*time.Millisecond))",
+      "opts = append(opts, options...)"] ∧
+    zrpcCliWithTimeoutOpt = ["options.Timeout = timeout"] ∧
+    zrpcCliDialOptions = ["var cliOpts ClientOptions", "range opts { opt(&cliOpts)",
+      "options = append(options, grpc.WithChainUnaryInterceptor(c.buildUnaryInterceptors(cliOpts.Timeout)...), grpc.WithChainStreamInterceptor(c.buildStreamInterceptors()...), )",
+      "return append(options, cliOpts.DialOptions...)"] ∧
+    zrpcCliWiring = ["if c.middlewares.Timeout { interceptors = append(interceptors, clientinterceptors.TimeoutInterceptor(timeout))"] ∧
+    zrpcWithCallTimeout = ["return clientinterceptors.WithCallTimeout(timeout)"] := ⟨rfl, rfl, rfl, rfl, rfl⟩
 
 /-- `Header()` hands out the map without locking (model: `setHeader` needs no lock) -/
 def expected_twHeaderShape : List String := [
